@@ -38,7 +38,7 @@ SIGS = {
 }
 EXT = {1: (6,), 2: (4, 6), 3: (2, 4, 2)}
 LEADS = {0: (), 1: ("c",), 2: (5, "c"), 3: (3, 5, "c")}
-LAYERS = ["ConvContract", "GroupNorm", "VN", "MaxNormPool", "ConvBlock", "ResNet", "UNet", "ResNet-conv", "UNet-conv", "DilResNet-conv"]
+LAYERS = ["ConvContract", "GroupNorm", "VN", "MaxNormPool", "ConvBlock", "ResNet", "UNet", "ResNet-conv", "UNet-conv", "DilResNet-conv", "losses"]
 
 
 def bounds(tier):
@@ -199,6 +199,8 @@ def _vmap_case(case, seed):
     in_sig = [((0, 0), 2), ((1, 0), 2)]
     order = [(1, 0), (0, 0)] if case["unsorted"] else [(0, 0), (1, 0)]
     conv = name.endswith("-conv")
+    if name == "losses":
+        return _loss_case(case, seed)
     if name == "ConvContract":
         bank_mi, _, _ = mlh.bank(D, "B_M3_normalize")
         layer = ml.ConvContract(mlh.sig_tuple(in_sig), mlh.sig_tuple(in_sig), bank_mi, key=random.PRNGKey(0))
@@ -259,6 +261,42 @@ def _vmap_case(case, seed):
                     bad(f"C14/cross-talk/{name}/{vn}", f"{name}: entry {i} of the batched result changes when the other entries are replaced ({vn}); block {t}, max diff {np.max(np.abs(out[t][i] - base[t][i])):.2e}")
                     break
     return {"violations": v, "nt": True, "evals": evals, "metric": worst, "outcome": f"vmap/{name}"}
+
+
+def _loss_case(case, seed):
+    """per-entry losses: entry i of the un-reduced loss only depends on entry i of prediction and target"""
+    import jax.numpy as jnp
+    import ginjax.geometric as geom
+    import ginjax.ml as ml
+    from vlib import mlh
+
+    D, sp, Bn, S = 2, (3, 4), 3, 2
+    rng = rng_for(seed, "C14loss", case["unsorted"])
+    sig = [((0, 0), 2), ((1, 0), 4)]
+    order = [(1, 0), (0, 0)] if case["unsorted"] else [(0, 0), (1, 0)]
+    v = []
+    evals = 0
+    P = [mlh.make_input(sig, D, sp, rng, integer=False) for _ in range(Bn)]
+    T = [mlh.make_input(sig, D, sp, rng, integer=False) for _ in range(Bn)]
+
+    def stack(es, o):
+        return geom.MultiImage({kp: jnp.asarray(np.stack([e[kp] for e in es])) for kp in o}, D, True)
+
+    fns = {"smse": lambda a, b: np.asarray(ml.smse_loss(a, b, reduce=None)), "timestep": lambda a, b: np.asarray(ml.timestep_smse_loss(a, b, S, reduce=None))}
+    for name, f in fns.items():
+        base = f(stack(P, order), stack(T, order[::-1]))
+        for i in range(Bn):
+            single = f(stack([P[i]], order), stack([T[i]], order[::-1]))[0]
+            evals += 1
+            if not np.allclose(base[i], single, rtol=1e-6, atol=1e-6):
+                v.append(viol(f"C14/loss/{name}/vs-single", f"{name} loss of entry {i} in a batch != loss of that entry alone", case=case))
+            P2 = [P[j] if j == i else {kp: (1e3 * rng.normal(size=b.shape)).astype(np.float32) for kp, b in P[j].items()} for j in range(Bn)]
+            T2 = [T[j] if j == i else {kp: np.zeros_like(b) for kp, b in T[j].items()} for j in range(Bn)]
+            out = f(stack(P2, order), stack(T2, order[::-1]))
+            evals += 1
+            if not np.array_equal(out[i], base[i]):
+                v.append(viol(f"C14/loss/{name}/cross-talk", f"{name} loss of entry {i} changes when the other entries are replaced", case=case))
+    return {"violations": v[:5], "nt": True, "evals": evals, "outcome": "vmap/losses"}
 
 
 def run_case(case, seed):
